@@ -15,6 +15,10 @@ def run(prop: str, tier: str) -> int:
         from . import props_strings
 
         return props_strings.run(prop, tier)
+    if prop in ("C06", "C07", "C08"):
+        from . import props_e2
+
+        return getattr(props_e2, "run_" + prop.lower())(tier)
     if prop == "C10":
         from . import props_e3
 
